@@ -357,6 +357,72 @@ int main(int argc, char **argv) {
             plan.stages.push_back(st);
         }
         {
+            // short mantissas: every mantissa with at most `sbits` leading bits (all others zero) at every binary exponent. Their
+            // decimal expansions are short, so cutting the running product of the conversion down shows in the last digit.
+            vx::Stage st;
+            st.name   = "short-mantissas";
+            st.chunks = 2047;
+            const int sbits = atoi(a.get("shortbits", th ? "12" : "10").c_str());
+            st.fn     = [sbits, th](int64_t chunk, vx::Ctx &ctx) {
+                static const unsigned qp[] = {13, 14, 15, 16, 32, 33, 34, 35, 38, 39, 40};
+                for (uint64_t m = 0; m < (1ull << sbits); m++) {
+                    if (!ctx.next()) {
+                        continue;
+                    }
+                    const uint64_t bits = ((uint64_t)chunk << 52) | (m << (52 - sbits));
+                    double         d;
+                    memcpy(&d, &bits, 8);
+                    if (ctx.want_desc()) {
+                        char b[96];
+                        snprintf(b, sizeof b, "double bits=%016" PRIx64 " (short mantissa)", bits);
+                        ctx.describe(b);
+                    }
+                    ctx.acc.count("states");
+                    if (th) {
+                        for (unsigned prec = 0; prec <= 40; prec++) {
+                            real_case<char>(d, prec, 0, 0, ctx);
+                        }
+                        real_case<char>(-d, 15, 0, 1, ctx);
+                        real_case<char>(d, 40, 1, 0, ctx);
+                        real_case<char>(d, 40, 2, 1, ctx);
+                    } else {
+                        for (unsigned prec : qp) {
+                            real_case<char>(d, prec, 0, 0, ctx);
+                        }
+                    }
+                }
+            };
+            plan.stages.push_back(st);
+        }
+        {
+            // all float subnormals and the smallest normals at the precisions where the float conversion cuts: 28..40
+            vx::Stage st;
+            st.name   = "float-subnormals";
+            st.chunks = 256;
+            st.fn     = [th](int64_t chunk, vx::Ctx &ctx) {
+                const uint32_t per = th ? (1u << 24) / 256 : 4096 / 256 * 16; // thorough: all 2^23 subnormals and as many normals; quick: the lowest 4096 patterns
+                for (uint32_t i = 0; i < per; i++) {
+                    if (!ctx.next()) {
+                        continue;
+                    }
+                    const uint32_t bits = (uint32_t)chunk * per + i;
+                    float          f;
+                    memcpy(&f, &bits, 4);
+                    if (ctx.want_desc()) {
+                        char b[64];
+                        snprintf(b, sizeof b, "float bits=%08x (subnormal range)", bits);
+                        ctx.describe(b);
+                    }
+                    ctx.acc.count("states");
+                    for (unsigned prec : {28u, 33u, 38u, 39u, 40u}) {
+                        real_case<char>(f, prec, 0, 0, ctx);
+                    }
+                    real_case<char>(f, 40, 1, 0, ctx);
+                }
+            };
+            plan.stages.push_back(st);
+        }
+        {
             vx::Stage st;
             st.name   = "floats";
             st.chunks = 4096;
